@@ -165,6 +165,11 @@ func alphabet() []stmt {
 		{Kind: "raw", Raw: `CONSTRUCT { ?s "q"@[] ?o } INTO ?zz FROM ?a WHERE { ?s "p"@[] ?o };`, MustReject: true},
 		{Kind: "raw", Raw: `DECONSTRUCT { ?s "q"@[] ?o } IN ?zz FROM ?a WHERE { ?s "p"@[] ?o };`, MustReject: true},
 		{Kind: "raw", Raw: `CONSTRUCT { ?s "q"@[] ?x } INTO ?b FROM ?a WHERE { ?s "p"@[] ?o };`, MustReject: true},
+		// the unknown binding is NOT the first thing the template instantiates: a statement that starts executing writes
+		// the earlier clauses / the reification triples before it notices
+		{Kind: "raw", Raw: `CONSTRUCT { ?s "q"@[] ?o . ?s "w"@[] ?x } INTO ?b FROM ?a WHERE { ?s "p"@[] ?o };`, MustReject: true},
+		{Kind: "raw", Raw: `CONSTRUCT { ?s "q"@[] ?o ; "w"@[] ?x } INTO ?b FROM ?a WHERE { ?s "p"@[] ?o };`, MustReject: true},
+		{Kind: "raw", Raw: `DECONSTRUCT { ?s "p"@[] ?o . ?x "p"@[] ?o } IN ?a FROM ?a WHERE { ?s "p"@[] ?o };`, MustReject: true},
 		{Kind: "raw", Raw: `DELETE DATA FROM ?a { /u<a> "p"@[] /u<b> } garbage;`, MustReject: true},
 	}
 }
